@@ -388,8 +388,6 @@ def replay_behaviour(beh, cfg, tables, tid, N, seed):
                 continue        # ... and two-site operators only on an edge
             if "opt" not in q:
                 q["opt"] = ["", "", "dtype", "seq"][(seed + 3 * seq[0]) % 4]
-                if k == "expec" and cfg.cls in ("CircuitMPS", "CircuitPermMPS", "CircuitMPSLazy"):
-                    q["opt"] = ""
             if k == "expec":
                 q["G"] = dw_array(tables["ops"][q["op"]])
             fields = {kk: vv for kk, vv in q.items() if kk not in ("G",)}
@@ -985,7 +983,7 @@ def run(ctx):
     must_fail(ctx, "MC_dev_sharedinfo.cfg", "InfoSound", "copy() that shares gate_opts['info'] between the two objects: a gate on one falsifies the record of the other")
     if not quick:
         must_fail(ctx, "MC_dev_permctrl.cfg", "PermSound", "KF-C07-2: controls are not translated to physical sites")
-        must_fail(ctx, "MC_dev_expeccopy.cfg", "InfoSound", "KF-C07-9: local_expectation(dtype=...) canonicalises a copy of the MPS but records the centre in the object's info")
+        must_fail(ctx, "MC_dev_expeccopy.cfg", "InfoSound", "pre-fix local_expectation(dtype=...) that canonicalises a copy of the MPS but records the centre in the object's info")
         must_fail(ctx, "MC_dev_ctliden.cfg", "QueriesAgree", "pre-fix (0e107742) reverse light cone that drops the tensors of a controlled IDEN (cut wire)")
         must_fail(ctx, "MC_dev_copy.cfg", "QueriesAgree", "pre-fix (b38acc9f) copy() that loses _marginal_storage_size, sample() on the copy raises")
         must_fail(ctx, "MC_mut_cone.cfg", "QueriesAgree", "mutated reverse light cone that ignores SWAP relabelling")
